@@ -79,11 +79,12 @@ Ltac sep s H := let c := fresh "c" in destruct s as [|c s]; [cbv beta iota in H;
 Lemma instant_mod X us : 0 <= us < 1000000 -> (X * 1000000 + us) mod 1000000 = us.
 Proof. intros B. rewrite Z.add_comm, Z.mod_add by lia. apply Z.mod_small. lia. Qed.
 
-Lemma time_complete p c s i :
-  valid_timestamp p c s = true -> instant_of_text s = Some i ->
+Lemma time_complete p c p' c' s i :
+  kind_accepts (KTime p c) (KTime p' c') = true ->
+  valid_timestamp p' c' s = true -> instant_of_text s = Some i ->
   exists r, ts_clean true p c s = Ok r /\ instant_of_text (snd r) = Some i.
 Proof.
-  intros Hv Hi. unfold instant_of_text in Hi.
+  intros Hacc Hv Hi. unfold instant_of_text in Hi. cbn [kind_accepts] in Hacc.
   destruct (parse_ts_strict s) as [ts| |] eqn:H; try discriminate. injection Hi as <-.
   unfold parse_ts_strict in H. unfold valid_timestamp in Hv.
   ch s H. ch s H. ch s H. ch s H. sep s H. ch s H. ch s H. sep s H. ch s H. ch s H. sep s H.
@@ -198,7 +199,7 @@ Proof.
         apply andb_true_iff in Hv. destruct Hv as [_ Hv].
         apply andb_true_iff in Hv. destruct Hv as [_ Hv].
         assert (Ldr : List.length dr = List.length ds) by (rewrite Lds; unfold f; rewrite rev_length; reflexivity).
-        destruct p, c; auto; try discriminate Hv.
+        destruct p, c; auto; destruct p', c'; try discriminate Hacc; try discriminate Hv.
         apply Nat.eqb_eq in Hv. rewrite Ldr in Hv. rewrite Hv. change (Z.of_nat (6 - 3)) with 3.
         change (10 ^ 3) with 1000. apply Z_mod_mult.
       * rewrite Eus. reflexivity.
@@ -227,17 +228,15 @@ Section CompTime.
   Variable ro : ver -> list (ustring * ustring) -> bool -> list (ustring * jvalue) -> result pval.
 
   Lemma complete_time p c p' c' j n :
-    vr_year_pad vr = true -> prec_eqb p p' = true -> pconstr_eqb c c' = true ->
+    vr_year_pad vr = true -> kind_accepts (KTime p c) (KTime p' c') = true ->
     valid_kind sp pok n (KTime p' c') j = true ->
     (forall s, j = JStr s -> instant_of_text s <> None) ->
     exists pv, clean_kind vr w rc rp ro (KTime p c) false false j = Ok (pv, false) /\ jsame (KTime p' c') j (encode true pv).
   Proof.
-    intros Hpad Ep Ec H Hrep.
-    assert (p' = p) by (destruct p, p'; simpl in Ep; auto; discriminate).
-    assert (c' = c) by (destruct c, c'; simpl in Ec; auto; discriminate). subst.
+    intros Hpad Hacc H Hrep.
     destruct (valid_S sp pok _ _ _ H) as [m ->]. cbn in H. destruct j; try discriminate.
     destruct (instant_of_text s) as [i|] eqn:Ei; [|exfalso; apply (Hrep s eq_refl); auto].
-    destruct (time_complete p c s i H Ei) as [r [Hr Hi]].
+    destruct (time_complete p c p' c' s i Hacc H Ei) as [r [Hr Hi]].
     exists (PTime (fst r) (snd r)). split.
     - cbn [clean_kind]. rewrite Hpad, Hr. reflexivity.
     - cbn [encode jsame]. rewrite Ei, Hi. split; [discriminate | reflexivity].
